@@ -227,7 +227,25 @@ func c12ChildMain(a Args) {
 	}
 	obs := c12Obs{Scn: scn, ReturnedT: -1, TriggerT: -1}
 	log := &c12Logger{t0: time.Now()}
+	// watchdog: the longest time this process was not scheduled. After a freeze of a second or more (overloaded or
+	// paused machine) the run says nothing about the code: the two 500 ms tickers and the 100 ms read deadlines all
+	// fire at once, in arbitrary order. Such a run is reported as an infrastructure problem and repeated.
+	var maxGap int64
+	go func() {
+		last := time.Now()
+		for {
+			time.Sleep(20 * time.Millisecond)
+			now := time.Now()
+			if g := now.Sub(last).Milliseconds() - 20; g > atomic.LoadInt64(&maxGap) {
+				atomic.StoreInt64(&maxGap, g)
+			}
+			last = now
+		}
+	}()
 	finish := func(e string) {
+		if g := atomic.LoadInt64(&maxGap); e == "" && g >= 1000 {
+			e = fmt.Sprintf("stalled: this process was not scheduled for %d ms", g)
+		}
 		obs.Err = e
 		log.mu.Lock()
 		obs.Events = append([]c12Event(nil), log.ev...)
